@@ -170,7 +170,7 @@ func buildEdDSAKeygen(n, t int, o kgOpts) *runCtx {
 	for i, pid := range pids {
 		node, out := newNode(fmt.Sprintf("N%d", i), 'N', i, pid)
 		end := make(chan *eddsakeygen.LocalPartySaveData, 8)
-		params := tss.NewParameters(tss.Edwards(), ctx, pid, n, t)
+		params := tss.NewParameters(tss.Edwards(), ctx, pid, n, t+cfgDelta(fmt.Sprintf("N%d", i)))
 		var pk, pr []byte
 		if o.ui != nil {
 			pk = beN(o.ui[i], 32)
@@ -214,7 +214,7 @@ func buildECDSAKeygen(n, t int, o kgOpts) *runCtx {
 	for i, pid := range pids {
 		node, out := newNode(fmt.Sprintf("N%d", i), 'N', i, pid)
 		end := make(chan *ecdsakeygen.LocalPartySaveData, 8)
-		params := tss.NewParameters(tss.S256(), ctx, pid, n, t)
+		params := tss.NewParameters(tss.S256(), ctx, pid, n, t+cfgDelta(fmt.Sprintf("N%d", i)))
 		var pk, pr []byte
 		if o.ui != nil {
 			pk = beN(o.ui[i], 32)
@@ -361,7 +361,7 @@ func buildEdDSAReshareOpt(oldKeys []eddsakeygen.LocalPartySaveData, oldPIDs tss.
 	for i, pid := range oldPIDs {
 		node, out := newNode(fmt.Sprintf("O%d", i), 'O', i, pid)
 		end := make(chan *eddsakeygen.LocalPartySaveData, 8)
-		params := tss.NewReSharingParameters(tss.Edwards(), oldCtx, newCtx, pid, keyN, oldT, len(newPIDs), o.newT)
+		params := tss.NewReSharingParameters(tss.Edwards(), oldCtx, newCtx, pid, keyN, oldT, len(newPIDs), o.newT+cfgDelta(fmt.Sprintf("O%d", i)))
 		var pr []byte
 		if o.coefs != nil {
 			for _, c := range o.coefs[i] {
@@ -380,7 +380,7 @@ func buildEdDSAReshareOpt(oldKeys []eddsakeygen.LocalPartySaveData, oldPIDs tss.
 	for i, pid := range newPIDs {
 		node, out := newNode(fmt.Sprintf("N%d", i), 'N', i, pid)
 		end := make(chan *eddsakeygen.LocalPartySaveData, 8)
-		params := tss.NewReSharingParameters(tss.Edwards(), oldCtx, newCtx, pid, keyN, oldT, len(newPIDs), o.newT)
+		params := tss.NewReSharingParameters(tss.Edwards(), oldCtx, newCtx, pid, keyN, oldT, len(newPIDs), o.newT+cfgDelta(fmt.Sprintf("N%d", i)))
 		params.SetRand(newDetRand(fmt.Sprintf("%s-n-%d", o.seed, i)))
 		save := eddsakeygen.NewLocalPartySaveData(len(newPIDs))
 		node.Party = eddsareshare.NewLocalParty(params, save, out, end)
@@ -417,7 +417,7 @@ func buildECDSAReshareOpt(oldKeys []ecdsakeygen.LocalPartySaveData, oldPIDs tss.
 	for i, pid := range oldPIDs {
 		node, out := newNode(fmt.Sprintf("O%d", i), 'O', i, pid)
 		end := make(chan *ecdsakeygen.LocalPartySaveData, 8)
-		params := tss.NewReSharingParameters(tss.S256(), oldCtx, newCtx, pid, keyN, oldT, len(newPIDs), o.newT)
+		params := tss.NewReSharingParameters(tss.S256(), oldCtx, newCtx, pid, keyN, oldT, len(newPIDs), o.newT+cfgDelta(fmt.Sprintf("O%d", i)))
 		if o.noProofs {
 			params.SetNoProofMod()
 			params.SetNoProofFac()
@@ -440,7 +440,7 @@ func buildECDSAReshareOpt(oldKeys []ecdsakeygen.LocalPartySaveData, oldPIDs tss.
 	for i, pid := range newPIDs {
 		node, out := newNode(fmt.Sprintf("N%d", i), 'N', i, pid)
 		end := make(chan *ecdsakeygen.LocalPartySaveData, 8)
-		params := tss.NewReSharingParameters(tss.S256(), oldCtx, newCtx, pid, keyN, oldT, len(newPIDs), o.newT)
+		params := tss.NewReSharingParameters(tss.S256(), oldCtx, newCtx, pid, keyN, oldT, len(newPIDs), o.newT+cfgDelta(fmt.Sprintf("N%d", i)))
 		if o.noProofs {
 			params.SetNoProofMod()
 			params.SetNoProofFac()
@@ -455,4 +455,15 @@ func buildECDSAReshareOpt(oldKeys []ecdsakeygen.LocalPartySaveData, oldPIDs tss.
 	}
 	rc.net = net
 	return rc
+}
+
+// a deviating party that is an honest implementation started with a different threshold (set per fault by runFault)
+var cfgDeviator string
+var cfgThresholdDelta int
+
+func cfgDelta(name string) int {
+	if name == cfgDeviator {
+		return cfgThresholdDelta
+	}
+	return 0
 }
